@@ -141,8 +141,8 @@ func (g *sg) famNames() dsl.Type {
 	case 2:
 		t.TypeArguments = []dsl.Type{b.st("int")}
 	case 3:
-		// (a null type argument, `!generic {args: [null]}`, is producible too but makes the unchanged tree panic in
-		// ParseYamlInDir's own visitor and in Validate: reported as a suspected genuine defect, not exercised here)
+		// (a null type argument, `!generic {args: [null]}`, made the tree panic; since fix 70c3945 the parser rejects it, so
+		// a nil entry in TypeArguments is outside dsl.Validate's precondition and is not generated)
 		t.TypeArguments = []dsl.Type{b.vec(b.st("int"))}
 	case 4:
 		t.TypeArguments = []dsl.Type{b.st(verifOneOf("argname", "Nope", "GRec", "T"))}
